@@ -196,13 +196,19 @@ func (c *vConn) vSend(m []byte) bool {
 	}
 }
 
-func vClientMsg(typ, id, query string) []byte {
+func vClientMsg(typ, id, query string) []byte { return vClientMsgVars(typ, id, query, nil) }
+
+func vClientMsgVars(typ, id, query string, vars map[string]interface{}) []byte {
 	m := map[string]interface{}{"type": typ}
 	if id != "" {
 		m["id"] = id
 	}
 	if query != "" {
-		m["payload"] = map[string]interface{}{"query": query}
+		p := map[string]interface{}{"query": query}
+		if vars != nil {
+			p["variables"] = vars
+		}
+		m["payload"] = p
 	}
 	b, _ := json.Marshal(m)
 	return b
@@ -221,7 +227,7 @@ type Subscription { humanChanged: Human! tick: Int }
 `
 const vSubB = `
 interface Node { id: ID! }
-type Human implements Node { id: ID! phone: String! }
+type Human implements Node { id: ID! phone(cc: Int): String! }
 type Query { node(id: ID!): Node }
 `
 
@@ -237,7 +243,7 @@ func vSubWorld() *vWorld {
 // (*MultiOpQueryer).Subscribe over the websocket seam
 const vSubMerged = `
 interface Node { id: ID! }
-type Human implements Node { id: ID! name: String! phone: String! }
+type Human implements Node { id: ID! name: String! phone(cc: Int): String! }
 type Query { node(id: ID!): Node me: Human }
 type Subscription { humanChanged: Human! tick: Int }
 `
